@@ -227,6 +227,10 @@ const (
 	freshMacro
 	freshMethod
 	freshCount
+	// with the real schema library only (MENU 1)
+	freshEnum     = freshCount
+	freshTypeObj  = freshCount + 1
+	freshCountLib = freshCount + 2
 )
 
 func verifFreshText(kind int) string {
@@ -241,6 +245,10 @@ func verifFreshText(kind int) string {
 		return "MACRO @a1\n(\nGET /a1\n)\n"
 	case freshMethod:
 		return "GET /a1\n200 any // ok\n"
+	case freshEnum:
+		return "ENUM @a1 // e\n[1, \"two\"]\n"
+	case freshTypeObj:
+		return "TYPE @a1\n{\"ka1\": 1}\n"
 	}
 	return ""
 }
@@ -276,7 +284,11 @@ func VerifH_Locality() {
 	// insertion point: before a top-level line (not before the header) or at the end
 	pos := verifrt.Choice("pos", len(lines)) + 1
 	verifrt.Assume(pos == len(lines) || lines[pos].parent == -1)
-	kind := verifrt.Choice("fresh", freshCount)
+	nFresh := freshCount
+	if verifrt.Bound("MENU") == 1 {
+		nFresh = freshCountLib
+	}
+	kind := verifrt.Choice("fresh", nFresh)
 	text1 := verifRender(lines[:pos]) + verifFreshText(kind) + verifRender(lines[pos:])
 	verifrt.Note("doc+", text1)
 	core1, je1 := verifRun(text1)
@@ -313,8 +325,11 @@ func VerifH_Locality() {
 	}
 	verifrt.Assert("C20.others-unchanged", verifSameSig(kept, old))
 	switch kind {
-	case freshServer, freshTag, freshType:
+	case freshServer, freshTag, freshType, freshEnum:
 		verifrt.Assert("C20.one-new-entry", len(added) == 1)
+	case freshTypeObj:
+		// the type line, its root node and its one property
+		verifrt.Assert("C20.one-new-entry", len(added) == 3)
 	case freshMacro:
 		verifrt.Assert("C20.unused-macro-adds-nothing", len(added) == 0)
 	case freshMethod:
